@@ -138,6 +138,9 @@ def run_cases(ctx, out, cases, oracle=None):
         except gate.Deadlock as e:
             out.hist["harness_deadlock"] += 1
             out.disagree(c, "DEADLOCK %s" % e, m)
+            if out.hist["harness_deadlock"] >= 4:
+                out.fail(c, "[hang] a thread of the real Runner never reached its next gate (4 schedules): %s" % e)
+                break
             continue
         io_ = impl_obs(c, o)
         nontrivial = bool(c["out"] or c["err"] or c["ins"])
